@@ -116,6 +116,7 @@ struct HbConsRun : NodeEnv {
     std::vector<Ent> ent; int m = M_PREOP; int nEnt = 1;
     HbConsRun(const Plan &p, Cov &c, bool vb) : NodeEnv(p, c, vb) {}
     uint32_t tk(uint32_t ms) { return (uint32_t)((uint64_t)ms * freq / 1000); }
+    int scriptEntry = -1, scriptReal = -1; uint8_t scriptNode = 0;   // application script for CONmtHbConsEvent (model side / real side)
     Ent *configured(uint8_t node) { for (auto &e : ent) if (e.time > 0 && e.node == node) return &e; return nullptr; }
     static int decode(uint8_t s) { return s == 0 ? 1 : s == 127 ? 2 : s == 5 ? 3 : s == 4 ? 4 : 0; }
     void build() {
@@ -128,6 +129,7 @@ struct HbConsRun : NodeEnv {
         NodeCfg cfg; cfg.nodeId = nodeId; cfg.freq = freq; cfg.tmrNum = plan.c("tight", 0) ? (uint16_t)nEnt : 16; if (plan.c("tight", 0)) cov.hit("F15-timer-pool-without-spare-slot");
         w.build(0, cfg, specs); w.init(0); w.start(0);
         if (CONodeGetErr(N()) != CO_ERR_NONE) fail("setup/node-error", "node reports an error after initialisation");
+        w.onHbConsEvent = [this](uint8_t node) { if (scriptReal < 0) return; uint32_t cur = w.raw(0, 0x1016, (uint8_t)(scriptReal + 1)); if ((uint8_t)(cur >> 16) != node || (cur & 0xFFFF) == 0) return; int n = scriptReal; scriptReal = -1; (void)CODictWrLong(&N()->Dict, CO_DEV(0x1016, (uint8_t)(n + 1)), (uint32_t)scriptNode << 16 | (cur & 0xFFFF)); (void)CONodeGetErr(N()); };
     }
     // events and change callbacks of one operation against the model
     void checkCallbacks(size_t mark, const std::vector<std::pair<uint64_t, uint8_t>> &expEvents, const std::vector<std::pair<uint8_t, int>> &expChanges, const char *what) {
@@ -147,7 +149,9 @@ struct HbConsRun : NodeEnv {
         if (k == "tick") {
             uint64_t n = (uint64_t)o.arg(0); uint64_t to = now() + n; bool capped = false;
             // expected events up to 'to'
-            for (auto &e : ent) if (e.time > 0 && e.active) { uint32_t t = tk(e.time); if (t == 0) continue; int guard = 0; while (e.deadline <= to) { ee.push_back({e.deadline, e.node}); if (e.events < 255) e.events++; else cov.hit("event-counter-saturated"); e.deadline += t; if (++guard > 12000) { capped = true; break; } } }
+            for (auto &e : ent) if (e.time > 0 && e.active) { uint32_t t = tk(e.time); if (t == 0) continue; int guard = 0; while (e.deadline <= to) { ee.push_back({e.deadline, e.node}); if (e.events < 255) e.events++; else cov.hit("event-counter-saturated"); e.deadline += t; if (++guard > 12000) { capped = true; break; }
+                    // the application's event callback re-points this entry to another node (armed by 'evscript'): same rules as an SDO write - refused if that node is monitored already, else the entry waits for the new node's first heartbeat
+                    if (scriptEntry == (int)(&e - &ent[0])) { scriptEntry = -1; cov.hit("entry-rewritten-from-inside-the-event-callback"); nontrivial = true; if (!configured(scriptNode)) { uint16_t tm = e.time; e = Ent(); e.node = scriptNode; e.time = tm; break; } } } }
             if (capped) { fail("harness/too-many-events", "plan generates more than 3000 events in one tick operation"); return; }
             w.tick(0, n);
             if (now() != to) { fail("harness/tick-cap", "tick operation ended early"); return; }
@@ -171,6 +175,7 @@ struct HbConsRun : NodeEnv {
             // stored values of all entries
             for (int i = 0; i < nEnt && v.ok; i++) { uint32_t st = w.raw(0, 0x1016, (uint8_t)(i + 1)); uint32_t ex = (uint32_t)ent[(size_t)i].node << 16 | ent[(size_t)i].time; if (st != ex) fail("hbcons/stored-value", "1016h:" + std::to_string(i + 1) + " holds " + hex(st) + ", model " + hex(ex) + " after " + cls); }
         }
+        else if (k == "evscript") { int n = (int)(o.arg(0) % nEnt); uint8_t node = (uint8_t)o.arg(1); if (node < 1 || node > 127 || ent[(size_t)n].time == 0) return; scriptEntry = n; scriptNode = node; scriptReal = n; return; }
         else if (k == "events") { uint8_t node = (uint8_t)o.arg(0); Ent *e = configured(node); w.cur = 0; int16_t r = CONmtGetHbEvents(&N()->Nmt, node); int exp = e ? (int)e->events : -1; if (r != exp) fail("hbcons/event-counter", "CONmtGetHbEvents(" + std::to_string(node) + ") = " + std::to_string(r) + ", model " + std::to_string(exp)); if (e) { if (e->events) cov.hit("counter-read-nonzero"); e->events = 0; } }
         else if (k == "last") { uint8_t node = (uint8_t)o.arg(0); Ent *e = configured(node); w.cur = 0; int r = (int)CONmtLastHbState(&N()->Nmt, node); int exp = e ? e->last : 0; if (r != exp) fail("hbcons/last-state", "CONmtLastHbState(" + std::to_string(node) + ") = " + std::to_string(r) + ", model " + std::to_string(exp)); }
         else if (k == "readback") { if (m == M_STOP) return; int n = (int)(o.arg(0) % nEnt); uint32_t val = 0; uint32_t ab = sdoRead(0x1016, (uint8_t)(n + 1), val); uint32_t ex = (uint32_t)ent[(size_t)n].node << 16 | ent[(size_t)n].time; if (ab != 0 || val != ex) fail("hbcons/readback", "1016h:" + std::to_string(n + 1) + " reads " + hex(val) + " (abort " + hex(ab) + "), model " + hex(ex)); }
@@ -203,6 +208,7 @@ Plan gen_hbcons(Rng &r, bool thorough) {
         if (c < 6) p.ops.push_back(Op("hb", {anyNode(), r.pick<int64_t>({5, 5, 5, 127, 4, 0, 3})}));
         else if (c < 12) { int64_t T = r.pick<int64_t>({5, 10, 20, 50}) * (int64_t)f / 1000; p.ops.push_back(Op("tick", {r.chance(1, 15) ? 300 * T : r.pick<int64_t>({1, T - 1, T, T + 1, 2 * T, T / 2, 3 * T + 1})})); }
         else if (c < 16) p.ops.push_back(Op("write", {(int64_t)r.below((uint32_t)ne), anyNode(), r.chance(1, 3) ? 0 : r.pick<int64_t>({5, 10, 20, 50})}));
+        else if (c == 16 && r.chance(1, 3)) p.ops.push_back(Op("evscript", {(int64_t)r.below((uint32_t)ne), anyNode()}));
         else if (c == 16) p.ops.push_back(Op("events", {anyNode()}));
         else if (c == 17) p.ops.push_back(Op("last", {anyNode()}));
         else if (c == 18) p.ops.push_back(Op("readback", {(int64_t)r.below((uint32_t)ne)}));
